@@ -1,13 +1,116 @@
-import H2.Base
-/-! Line-protocol operations of the Server area (driver side). -/
+import H2.Server.Model
+/-! Line-protocol operations of the server area (driver side). -/
 namespace H2.Server.Drv
+open H2.Server
 
 structure State where
-  dummy : Nat := 0
+  conns : List (String × Srv) := []
 
 def State.init : State := {}
 
-/-- `args` is the whole line split on spaces; `args.head!` is the operation name -/
-def step (st : State) (args : List String) : State × String := (st, "bad-op")
+def State.get (st : State) (id : String) : Option Srv := (st.conns.find? (·.1 == id)).map (·.2)
+
+def State.set (st : State) (id : String) (s : Srv) : State :=
+  { conns := (id, s) :: st.conns.filter (·.1 != id) }
+
+def argOf (args : List String) (key : String) : Option String :=
+  (args.find? (·.startsWith (key ++ "="))).map fun a => (a.drop (key.length + 1)).toString
+
+def argInt (args : List String) (key : String) (dflt : Int) : Int :=
+  match argOf args key with
+  | some v => v.toInt?.getD dflt
+  | none => dflt
+
+def parseKV (s : String) : Option (List (Bytes × Bytes)) :=
+  if s == "" || s == "-" then some []
+  else (s.splitOn ",").mapM fun part =>
+    match part.splitOn ":" with
+    | [k, v] => do
+      let k ← fromHex k
+      let v ← fromHex v
+      pure (k, v)
+    | _ => none
+
+def parseResp (sid : Nat) (args : List String) : Option Resp := do
+  let status := argInt args "st" 200
+  let view ← parseKV ((argOf args "view").getD "-")
+  let body := (argOf args "body").getD "none"
+  let base : Resp := { status := status, view := view }
+  if body == "none" then pure base
+  else if body == "panic" then pure { base with kind := "panic" }
+  else if body.startsWith "hex:" then
+    let b ← fromHex (body.drop 4).toString
+    pure { base with kind := "buf", src := .hex b, len := b.length }
+  else if body.startsWith "pat:" then
+    let n ← (body.drop 4).toString.toNat?
+    pure { base with kind := "buf", src := .pat sid, len := n }
+  else if body.startsWith "stream:" then
+    match (body.drop 7).toString.splitOn ":" with
+    | [size, chunks, tail] =>
+      let size ← size.toInt?
+      let cs ← if chunks == "" || chunks == "-" then some [] else (chunks.splitOn ".").mapM (·.toNat?)
+      let t ← tail.toList.head?
+      pure { base with kind := "stream", src := .pat sid, size := size, stream := ⟨cs, t⟩ }
+    | _ => none
+  else none
+
+def gauges (s : Srv) : String :=
+  let held := (s.strms.map (·.prevHdr.length)).sum
+  s!"ok strms={s.strms.length} open={s.openStreams} ring={s.ring.length} held={held}"
+
+def step (st : State) (args : List String) : State × String :=
+  match args with
+  | _ :: id :: "new" :: rest =>
+    let mcs := argInt rest "mcs" 100
+    let mhl := argInt rest "mhl" 0
+    let mrb := argInt rest "mrb" 0
+    let cfg : Cfg := { maxStreams := if mcs ≤ 0 then 1024 else mcs.toNat,
+                       maxHeaderList := if mhl == 0 then Gen.c_DefaultMaxHeaderListSize else mhl,
+                       maxBody := if mrb > 0 then mrb.toNat else 4 * 1024 * 1024 }
+    let s : Srv := { cfg := cfg }
+    (st.set id s, fmtOuts (initOuts s))
+  | _ :: id :: op :: rest =>
+    match st.get id with
+    | none => (st, "bad-op")
+    | some s =>
+      if op == "mon" then (st, "mon")
+      else if op == "gauges" then (st, if s.undefined then "undef" else if s.returned then "ok gone" else gauges s)
+      else if op == "end" then
+        (st.set id { s with returned := true, rlStopped := true, slStopped := true }, if s.undefined then "undef" else "ok returned")
+      else if s.undefined then (st, "undef")
+      else if op == "frame" || op == "bytes" then
+        match rest with
+        | [h] =>
+          match fromHex h with
+          | none => (st, "bad-op")
+          | some b =>
+            if s.returned then (st, "out gone") else
+            let (s', outs) := Server.step s (.bytes b)
+            (st.set id s', if s'.undefined then "undef" else fmtOuts outs)
+        | _ => (st, "bad-op")
+      else if op == "done" then
+        match rest with
+        | sidS :: more =>
+          match sidS.toNat? with
+          | none => (st, "bad-op")
+          | some sid =>
+            match parseResp sid more with
+            | none => (st, "bad-op")
+            | some resp =>
+              let running := (s.strms.any fun x => x.id == sid && x.handlerRunning) ||
+                             (s.abandoned.any fun x => x.id == sid)
+              if !running then (st, "out no-handler") else
+              let (s', outs) := Server.step s (.done sid resp)
+              (st.set id s', if s'.undefined then "undef" else fmtOuts outs)
+        | _ => (st, "bad-op")
+      else if op == "cut" then
+        let (s', outs) := Server.step s .cut
+        (st.set id s', fmtOuts outs)
+      else if op == "idle" then
+        if s.returned then (st, "out gone") else
+        let (s', outs) := Server.step s .idle
+        (st.set id s', fmtOuts outs)
+      else (st, "bad-op")
+  | _ => (st, "bad-op")
 
 end H2.Server.Drv
